@@ -85,7 +85,7 @@ Definition kind_ok (c : container) : Prop :=
   match c_kind c with
   | KMsg => True
   | KTV => c_tid c < 128
-  | KTLV => 128 <= c_tid c /\ c_tid c < 32768
+  | KTLV => 128 <= c_tid c /\ c_tid c < 1024
   end.
 
 Lemma next_type_header c sz x :
@@ -93,7 +93,7 @@ Lemma next_type_header c sz x :
   next_type (header_bytes (c_kind c) (c_tid c) sz ++ x) = Some (is_tv_kind (c_kind c), c_tid c).
 Proof.
   unfold kind_ok. destruct (c_kind c) eqn:K; cbn [is_msg_kind]; intros Hk Hm; try discriminate.
-  - destruct Hk as [H1 H2]. destruct (tlv_type_bytes (c_tid c) H2) as [E L].
+  - destruct Hk as [H1 H2]. destruct (tlv_type_bytes (c_tid c) ltac:(lia)) as [E L].
     cbn [header_bytes app next_type is_tv_kind].
     replace (128 <=? N.shiftr (c_tid c) 8 mod 256) with false by (symmetry; apply N.leb_gt; exact L).
     now rewrite E.
@@ -515,7 +515,7 @@ Section RT.
       destruct (c_kind c) eqn:K; cbn [is_msg_kind] in Hm; try discriminate.
       + (* TLV *)
         destruct Hk as [Hk1 Hk2]. rewrite Ht in *.
-        destruct (tlv_type_bytes tid' Hk2) as [Et _].
+        destruct (tlv_type_bytes tid' ltac:(lia)) as [Et _].
         cbn [header_bytes app]. rewrite Et, N.eqb_refl.
         rewrite (u16_bytes sz Hsz).
         assert (H4 : 4 <= sz) by (unfold sz; cbn [header_size]; lia).
